@@ -139,7 +139,14 @@ func genEllswift(g *core.Gen) {
 			// private key >= n (reduced by btcec), u >= p
 			pre = strings.Repeat("f", 64) + strings.Repeat("f", 64) + "07"
 		}
-		kase(g, "create", true, "C19 create "+pre+" "+hx(r.Bytes(16)))
+		// the encoding chosen by EllswiftCreate is the sender's free choice: read it back and let
+		// the reference validate it (it must decode to the public key of the private key)
+		seed := hx(r.Bytes(16))
+		got := strings.Fields(execCreate(unhx(pre), unhx(seed)))
+		if len(got) < 2 {
+			got = []string{"-", "-"}
+		}
+		kase(g, "create", true, "C19 create "+pre+" "+seed+" "+got[0]+" "+got[1])
 	}
 }
 
@@ -164,7 +171,12 @@ func genIO(g *core.Gen) {
 		kase(g, "rwio", true, fmt.Sprintf("C19 rwio %d %s %s %s", r.Pick(0, 1, 2, 7, 1000), hx(inp), strings.Join(ns, ","), joinOr(sends, ",")))
 	}
 	for i := 0; i < g.N(40, 1500); i++ {
-		kase(g, "xell", true, "C19 xell "+randCurveX(r)+" - "+hx(r.Bytes(16)))
+		x, seed := randCurveX(r), hx(r.Bytes(16))
+		got := strings.Fields(execXell(x, nil, unhx(seed)))
+		if len(got) < 1 {
+			got = []string{"-"}
+		}
+		kase(g, "xell", true, "C19 xell "+x+" - "+seed+" "+got[0])
 	}
 }
 
